@@ -227,6 +227,12 @@ func runC11(c *Case) error {
 			obs = append(obs, step{vecOf(v), vecOf(arg)})
 			parts = append(parts, fmt.Sprintf("(%s, %s)", cVec(vecOf(v)), cVec(vecOf(arg))))
 			ups = append(ups, cVec(u))
+			// the emptied update vector is the caller's again: refilling it must not reach into the target
+			snap := fmt.Sprint(v.Entries)
+			arg.Entries = append(arg.Entries, sparse.Entry{Index: 0, Value: 123.5}, sparse.Entry{Index: 1, Value: 321.5})
+			if fmt.Sprint(v.Entries) != snap {
+				panic("after Merge the target shares storage with the emptied update vector")
+			}
 		}
 		c.setObs(obs)
 		c.coq = fmt.Sprintf("VecHist %s %s %s", cVec(in.V0), cList(ups), cList(parts))
